@@ -1,9 +1,203 @@
-/- stub: transcription of rrul_fill_Hly pending -/
-import Echse.Model.RrBase
+/-
+  Model of `rrul_fill_Hly` (src/evrrul.c:1884-2108, FREQ=HOURLY) with `inter_past` (1841-1848), `pos_pick_p` (1850-1870),
+  `pos_pick_any_p` (1872-1882) and the parts the three sub-daily fillers (`rrul_fill_Hly`, `rrul_fill_Mly`, `rrul_fill_Sly`)
+  have in common: the masks, the day tests, the BYYEARDAY test.  Hand transcription, loop by loop; C `unsigned int`
+  arithmetic that can wrap is written with explicit `% u32`.  Tied to the C code by tools/rrfillprobe.py.
+
+  Every C loop is a recursion over a finite list or a recursive function with a `fuel` argument; running out of fuel
+  yields `none` ("not modelled"), never a wrong list.  The loops are tail recursive (SECONDLY rules take millions of
+  rounds): results are accumulated in reverse (`acc`, newest first), the C variable `res` is `cnt = acc.length`.
+-/
+import Echse.Model.RrDly
+import Echse.Model.RrCand
 namespace Echse.Rrule
 open Echse.Instant
 
-/-- `none` = not modelled yet -/
-def fillHly (_r : Rule) (_proto : Inst) (_nti : Nat) : Option (List Inst) := none
+/-- the year after which the sub-daily fillers give up (2038, 2281, 2548: `y > 2099U`) -/
+def subMaxYear : Nat := 2099
+
+/-- `inter_past(rem, inter)` (1841-1848): `((rem - 1U) / inter + 1U) * inter`; callers have `inter ≠ 0` -/
+def interPast (rem inter : Nat) : Nat :=
+  ((((rem + u32 - 1) % u32) / inter + 1) % u32 * inter) % u32
+
+/-- `pos_pick_p(poss, i, n)` (1850-1870): an empty BYSETPOS picks all; else `pos == i + 1` or, for negative `pos`,
+`-pos <= n && n - -pos == i` (`size_t` arithmetic, no wrap) -/
+def posPickP (poss : List Int) (i n : Nat) : Bool :=
+  poss.isEmpty || poss.any fun pos =>
+    (pos > 0 && pos.toNat == i + 1) || (pos < 0 && decide ((-pos).toNat ≤ n) && n - (-pos).toNat == i)
+
+/-- `pos_pick_any_p(poss, n)` (1872-1882): `for (i = 0; i < n; i++) if (pos_pick_p(poss, i, n)) return true;` -/
+def posPickAnyP (poss : List Int) (n : Nat) : Bool :=
+  (List.range n).any fun i => posPickP poss i n
+
+/-- `1ULL << k`: a count ≥ 64 is undefined in C; x86 takes it mod 64.  Only reached with `k ≥ 64` for a proto whose
+minute or second is out of range. -/
+def shl1q (k : Nat) : Nat := 1 <<< (k % 64)
+
+/-- 1976-1987 (2197-2208, 2444-2455): `H_mask |= 1U << tmp` over BYHOUR; `uint_fast32_t` has 64 bits here, so
+`H_mask = ~H_mask` gives 64 ones (only tested with 32-bit values `1U << H`) -/
+def hourMask (H : List Nat) : Nat :=
+  let hm := H.foldl (fun (m : Nat) (t : Nat) => m ||| shl1 t) 0
+  if hm = 0 then 2^64 - 1 else hm
+
+/-- 2210-2221 (2457-2468, 2470-2481): `M_mask |= 1ULL << tmp` over BYMINUTE (BYSECOND), all ones when nothing is set -/
+def min64Mask (M : List Nat) : Nat :=
+  let mm := M.foldl (fun (m : Nat) (t : Nat) => m ||| shl1q t) 0
+  if mm = 0 then 2^64 - 1 else mm
+
+/-- what the loops of one call share (all three sub-daily fillers) -/
+structure SubCtx where
+  r : Rule
+  proto : Inst
+  nti : Nat
+  inter : Nat                -- `rr->inter`, an `unsigned int`
+  wdMask : Nat
+  mMask : Nat
+  posdMask : Nat
+  negdMask : Nat
+  HMask : Nat
+  MMask : Nat
+  SMask : Nat
+  e : Enum
+
+/-- the mask set-up all three fillers start with (1926-1987; 2147-2221; 2394-2481) and `make_enum` (1924, 2145) -/
+def mkSubCtx (r : Rule) (proto : Inst) (nti : Nat) : SubCtx :=
+  -- 1926-1943: bit w for plain weekdays, bit 0 for counted ones (uint8_t); all days if no plain weekday is set
+  let wdMask := wdMaskOf r.dow
+  let wdMask := if wdMask / 2 = 0 then wdMask ||| 0b11111110 else wdMask
+  let (posdMask, negdMask) := domMasks r.dom
+  { r, proto, nti, inter := r.inter % u32, wdMask, mMask := monMask r.mon, posdMask, negdMask,
+    HMask := hourMask r.H, MMask := min64Mask r.M, SMask := min64Mask r.S, e := makeEnum proto r }
+
+/-- 2049-2061 (2292-2304, 2559-2574): the weekday, month and day-of-month tests of the loop body; `true` = one of
+them filters the day.  `w` is 1..7 and `m` 1..12 here; `maxd - d` wraps when the proto's day exceeds its month. -/
+def SubCtx.dayOut (c : SubCtx) (w m d maxd : Nat) : Bool :=
+  !bit c.wdMask w || !bit c.mMask m ||
+  ((c.posdMask &&& shl1 d) = 0 && (c.negdMask &&& shl1 ((maxd + u32 - d) % u32)) = 0)
+
+/-- 2068-2075 (2317-2324, 2591-2598): the manual iteration over BYYEARDAY; `true` = `goto bang`.
+`maxy + ++tmp == yd` is `unsigned int` arithmetic. -/
+def doyHit (doy : List Int) (yd maxy : Nat) : Bool :=
+  doy.any fun tmp =>
+    (tmp > 0 && tmp.toNat == yd) || (tmp < 0 && (((maxy : Int) + (tmp + 1)) % (u32 : Int)).toNat == yd)
+
+/-- `(y % 4U) ? 365 : 366` -/
+def maxyOf (y : Nat) : Nat := if y % 4 ≠ 0 then 365 else 366
+
+/-- `if (w > SUN) w = w % 7U ?: SUN;` -/
+def wrapWd (w : Nat) : Nat := if w > 7 then (if w % 7 = 0 then 7 else w % 7) else w
+
+/-! ### `rrul_fill_Hly` -/
+
+/-- 1994-2002: `for (k = 0, tmp = H; !(H_mask & (1U << tmp)); tmp = (tmp + rr->inter % 24U) % 24U) if (++k >= 24U) goto fin;`
+`some true` = an allowed hour is reachable, `some false` = `goto fin`.  Fuel: `k` grows by one per round and the
+loop is left at `k = 24`, so 24 rounds suffice. -/
+def hlyReach (c : SubCtx) : Nat → Nat → Nat → Option Bool
+  | 0, _, _ => none
+  | fuel+1, k, tmp =>
+    if (c.HMask &&& shl1 tmp) ≠ 0 then some true
+    else if k + 1 ≥ 24 then some false
+    else hlyReach c fuel (k + 1) ((tmp + c.inter % 24) % 24)
+
+/-- the index pairs and values `(iM, iS, e.M[iM], e.S[iS])` that `for (ENUM_INIT(e, iS, iM); … ENUM_COND(e, iS, iM);
+ENUM_ITER(e, iS, iM))` visits (2082-2083): minutes outer, seconds inner; the hour level of the macros is the hidden
+counter `auto_m`, which ENUM_ITER sets to -2U in every round, so that the loop ends after one pass -/
+def Enum.timesMS (e : Enum) : List (Nat × Nat × Nat × Nat) :=
+  e.M.zipIdx.flatMap fun (mi, iM) => e.S.zipIdx.map fun (s, iS) => (iM, iS, mi, s)
+
+/-- 2082-2104: the ENUM loop of the hour `y-m-d H`; result `(cnt, acc, fin)`, `fin` = `goto fin` was taken.
+Recursion over the (finite) list of minute/second pairs. -/
+def hlyEnum (c : SubCtx) (y m d H : Nat) :
+    List (Nat × Nat × Nat × Nat) → Nat → List Inst → Nat × List Inst × Bool
+  | [], cnt, acc => (cnt, acc, false)
+  | (iM, iS, mi, s) :: rest, cnt, acc =>
+    if ¬ cnt < c.nti then (cnt, acc, false) else
+    let x := mkInst y m d H mi s c.proto.ms
+    if ltP x c.proto then hlyEnum c y m d H rest cnt acc                     -- continue
+    else if ltP c.r.untl x then (cnt, acc, true)                             -- goto fin
+    else if !posPickP c.r.pos (iM * c.e.S.length + iS) (c.e.M.length * c.e.S.length) then
+      hlyEnum c y m d H rest cnt acc                                         -- not one of the set positions
+    else hlyEnum c y m d H rest (cnt + 1) (x :: acc)                         -- tgt[res++] = x
+
+/-- 2016-2025: `while (d > maxd) { d -= maxd; if (++m > 12U) { y++; m = 1U; yd -= maxy; maxy = (y % 4U) ? 365 : 366; }
+maxd = __get_ndom(y, m); }`, state `(y, m, d, maxd, yd, maxy)`.  Fuel: `m` stays in 1..12, so `maxd ≥ 28` and every
+round lowers `d` by at least 1 while `d > maxd ≥ 1`: `d + 1` rounds suffice (callers pass `d + 1`). -/
+def hlyCarry : Nat → Nat → Nat → Nat → Nat → Nat → Nat → Option (Nat × Nat × Nat × Nat × Nat × Nat)
+  | 0, _, _, _, _, _, _ => none
+  | fuel+1, y, m, d, maxd, yd, maxy =>
+    if d > maxd then
+      let d := d - maxd
+      if m + 1 > 12 then
+        let y := (y + 1) % u32
+        hlyCarry fuel y 1 d (getNdom y 1) ((yd + u32 - maxy) % u32) (maxyOf y)
+      else hlyCarry fuel y (m + 1) d (getNdom y (m + 1)) yd maxy
+    else some (y, m, d, maxd, yd, maxy)
+
+/-- 2005-2105: the outer loop over the candidate hours, `for (w = …, yd = …, maxd = …, maxy = …, inc = rr->inter;
+res < nti; ({ if ((H += inc) >= 24U) { … } inc = rr->inter; }))`.  `inc` is `rr->inter` at the head of every round, so it
+is not part of the state; the body says which `inc` its `continue` leaves behind.  `none` out of fuel (see `hlyFuel`). -/
+def hlyLoop (c : SubCtx) (times : List (Nat × Nat × Nat × Nat)) :
+    Nat → Nat → Nat → Nat → Nat → Nat → Nat → Nat → Nat → Nat → List Inst → Option (List Inst)
+  | 0, _, _, _, _, _, _, _, _, _, _ => none
+  | fuel+1, y, m, d, H, w, yd, maxd, maxy, cnt, acc =>
+    if ¬ cnt < c.nti then some acc else
+    -- 2030-2045: the first instant this candidate could produce; the year stop; UNTIL
+    let lb := mkInst y m d H 0 0 c.proto.ms
+    if y > subMaxYear then some acc                                          -- goto fin
+    else if ltP c.r.untl lb then some acc                                    -- goto fin
+    else
+    -- 2049-2104: the body proper, `(cnt, acc, fin, inc)`
+    let past := interPast ((24 + u32 - H) % u32) c.inter                     -- inter_past(24U - H, rr->inter)
+    let (cnt, acc, fin, inc) : Nat × List Inst × Bool × Nat :=
+      if c.dayOut w m d maxd then (cnt, acc, false, past)                    -- weekday, month or day is filtered
+      else if (c.HMask &&& shl1 H) = 0 then (cnt, acc, false, c.inter)       -- hour is filtered
+      else if !c.r.doy.isEmpty && !doyHit c.r.doy yd maxy then (cnt, acc, false, past)
+      else
+        let (cnt, acc, fin) := hlyEnum c y m d H times cnt acc               -- bang:
+        (cnt, acc, fin, c.inter)
+    if fin then some acc else
+    -- 2009-2028: the loop's increment expression
+    let H := (H + inc) % u32
+    if H ≥ 24 then
+      let q := H / 24
+      let w := wrapWd ((w + q) % u32)
+      match hlyCarry ((d + q) % u32 + 1) y m ((d + q) % u32) maxd ((yd + q) % u32) maxy with
+      | none => none
+      | some (y, m, d, maxd, yd, maxy) => hlyLoop c times fuel y m d (H % 24) w yd maxd maxy cnt acc
+    else hlyLoop c times fuel y m d H w yd maxd maxy cnt acc
+
+/-- fuel of `hlyLoop` entered at year `y`.  `inc` is `rr->inter` or `inter_past(rem, rr->inter)`, a multiple of
+`rr->inter ≥ 1` below `rem + rr->inter` (`rem ≤ 24`, no wrap).  As long as `H + inc` does not wrap, a round moves the
+candidate `y-m-d H` forward by `inc ≥ 1` hours (the carry keeps the hour count), and a round entered with `y > 2099`
+leaves the loop: at most `(2100 - y) * 366 * 24 + 1` such rounds.  `H + inc` wraps only for `inc ≥ 2^32 - 23`; then `H`
+shrinks by at least 1, stays in its day, and after at most 23 such rounds in a row (255 for a proto with an hour out of
+range) the sum no longer wraps, `d` grows by more than 10^8 days and the next round sees `y > 2099`. -/
+def hlyFuel (y : Nat) : Nat := (2100 - y) * 8784 + 300
+
+/-- `rrul_fill_Hly(tgt, nti, rr)` with `*tgt = proto` -/
+def fillHly (r : Rule) (proto : Inst) (nti : Nat) : Option (List Inst) :=
+  let y := proto.y
+  let m := proto.m
+  let d := proto.d
+  -- 1900-1904
+  match capNti r nti with
+  | none => some []
+  | some nti =>
+  -- 1905-1908
+  if r.scale ≠ 0 then some [] else
+  -- 1910-1916
+  if y < 1600 ∨ m = 0 ∨ m > 12 ∨ d = 0 ∨ d > 31 then some [] else
+  if r.inter % u32 = 0 then some [] else
+  -- 1918-1921
+  let H := if proto.H = allDay then 0 else proto.H
+  let c := mkSubCtx r proto nti
+  -- 1989-1992
+  if !posPickAnyP r.pos (c.e.M.length * c.e.S.length) then some [] else
+  match hlyReach c 24 0 H with
+  | none => none
+  | some false => some []                                                    -- incongruent, nothing will ever match
+  | some true =>
+    (hlyLoop c c.e.timesMS (hlyFuel y) y m d H (ymdGetWday y m d) (ymdGetYd y m d) (getNdom y m) (maxyOf y) 0 []).map
+      List.reverse
 
 end Echse.Rrule
